@@ -83,6 +83,17 @@ int main(int argc, char** argv) {
                 else throw std::runtime_error("unknown mobilizer type " + t);
             }
             Force::DiscreteForces applied(forces, matter);
+            // constraints (spec: cons), all disabled by default so that the unconstrained phases are unaffected
+            std::vector<Constraint> cons;
+            auto axisOf = [&](const mj::Value& a) { const double sc = std::pow(5.0, a["e"].dbl()); return UnitVec3(Vec3(a["n"][0].dbl() / sc, a["n"][1].dbl() / sc, a["n"][2].dbl() / sc)); };
+            for (auto& k : c["cons"].arr()) {
+                const string t = k["type"].str(); MobilizedBody& b1 = mb[(int)k["b1"].num()];
+                if (t == "pip") cons.push_back(Constraint::PointInPlane(b1, axisOf(k["n"]), k["h"].dbl(), mb[(int)k["b2"].num()], vec(k["st"])));
+                else if (t == "cang") cons.push_back(Constraint::ConstantAngle(b1, axisOf(k["a1"]), mb[(int)k["b2"].num()], axisOf(k["a2"]), std::acos(k["cosn"].dbl() / std::pow(5.0, k["cose"].dbl()))));
+                else if (t == "cspeed") cons.push_back(Constraint::ConstantSpeed(b1, MobilizerUIndex((int)k["k"].num() - 1), k["s"].dbl()));
+                else throw std::runtime_error("unknown constraint type " + t);
+                cons.back().setDisabledByDefault(true);
+            }
             system.realizeTopology();
             State s = system.getDefaultState();
             if (c.has("euler") && c["euler"].num()) matter.setUseEulerAngles(s, true);
@@ -305,6 +316,56 @@ int main(int argc, char** argv) {
                        << ",\"w1\":" << jv(V1[0]) << ",\"v1\":" << jv(V1[1]) << ",\"w2\":" << jv(V2[0]) << ",\"v2\":" << jv(V2[1]) << "}";
                 }
                 js << "]";
+            }
+            if (!cons.empty()) {   // constraints: errors, G and its operators, constraint forces, constrained forward dynamics
+                State sc = system.getDefaultState();
+                if (c.has("euler") && c["euler"].num()) matter.setUseEulerAngles(sc, true);
+                system.realizeModel(sc);
+                int nen = 0;
+                for (size_t k = 0; k < cons.size(); ++k) if (c["cons"][(int)k]["on"].num()) { cons[k].enable(sc); ++nen; }
+                system.realizeModel(sc); setCoords(sc, c["q"], c["u"]);
+                system.realize(sc, Stage::Velocity);
+                js << ",\"cons\":[";
+                for (size_t k = 0; k < cons.size(); ++k) {
+                    js << (k ? "," : "");
+                    if (!c["cons"][(int)k]["on"].num()) { js << "null"; continue; }
+                    int mp, mv, ma; cons[k].getNumConstraintEquationsInUse(sc, mp, mv, ma);
+                    const Vector pe = cons[k].getPositionErrorsAsVector(sc), ve = cons[k].getVelocityErrorsAsVector(sc);
+                    js << "{\"mp\":" << mp << ",\"mv\":" << mv << ",\"perr\":" << num(mp ? pe[0] : 0.0) << ",\"verr\":" << num(ve[0]) << "}";
+                }
+                js << "]";
+                Matrix G; matter.calcG(sc, G);
+                const int m = G.nrow();
+                js << ",\"G\":[";
+                for (int r = 0; r < m; ++r) { js << (r ? "," : "") << "["; for (int j = 0; j < nu; ++j) js << (j ? "," : "") << num(G(r, j)); js << "]"; }
+                js << "]";
+                double errG = 0, errGt = 0, errCF = 0;
+                if (m && nu) {
+                    Vector probe(nu), lam(m); for (int j = 0; j < nu; ++j) probe[j] = (j % 2 ? -1.0 : 1.0) * (j + 1); for (int r = 0; r < m; ++r) lam[r] = (r % 2 ? 2.0 : -3.0) + r;
+                    Vector Gp; matter.multiplyByG(sc, probe, Gp); errG = (Gp - G * probe).normInf();
+                    Vector Gtl; matter.multiplyByGTranspose(sc, lam, Gtl); errGt = (Gtl - ~G * lam).normInf();
+                    Vector_<SpatialVec> cF; Vector cf; matter.calcConstraintForcesFromMultipliers(sc, lam, cF, cf);
+                    Vector JtF; matter.multiplyBySystemJacobianTranspose(sc, cF, JtF); errCF = (JtF + cf - ~G * lam).normInf();
+                }
+                Vector bias; matter.calcBiasForAccelerationConstraints(sc, bias);
+                js << ",\"errG\":" << num(errG) << ",\"errGt\":" << num(errGt) << ",\"errCF\":" << num(errCF) << ",\"cbias\":[";
+                for (int r = 0; r < m; ++r) js << (r ? "," : "") << num(bias[r]);
+                js << "]";
+                if (c["dyn"].num()) {   // constrained forward dynamics with the applied body forces F and the mobility forces tau
+                    const int nb = matter.getNumBodies();
+                    Vector_<SpatialVec> bodyF(nb, SpatialVec(Vec3(0), Vec3(0)));
+                    for (int i = 1; i <= N; ++i) bodyF[mb[i].getMobilizedBodyIndex()] = SpatialVec(vec(c["F"][i - 1]["t"]), vec(c["F"][i - 1]["f"]));
+                    Vector tau(nu); for (int j = 0; j < nu; ++j) tau[j] = c["tau"][j].dbl();
+                    applied.setAllBodyForces(sc, bodyF); applied.setAllMobilityForces(sc, tau);
+                    string dexc;
+                    try { system.realize(sc, Stage::Acceleration); } catch (const std::exception& e) { dexc = e.what(); }
+                    js << ",\"cdynExc\":" << mj::quote(dexc.substr(0, 150));
+                    if (dexc.empty()) {
+                        js << ",\"cudot\":["; for (int j = 0; j < nu; ++j) js << (j ? "," : "") << num(sc.getUDot()[j]);
+                        js << "],\"clambda\":["; for (int r = 0; r < m; ++r) js << (r ? "," : "") << num(sc.getMultipliers()[r]);
+                        js << "],\"caerr\":" << num(sc.getUDotErr().size() ? sc.getUDotErr().normInf() : 0.0);
+                    }
+                }
             }
             {   // composite body inertias (about each body's origin, in Ground) at the first coordinate set
                 State sc = s; setCoords(sc, c["q"], c["u"]); system.realize(sc, Stage::Position);
